@@ -76,35 +76,65 @@ theorem handleAE_log (nd : Node) (t p pt : Nat) (es : List Entry) (lc stage : Na
     · simp only [h2, if_true]
       split
       · refine ⟨rfl, by simp; omega, Or.inl rfl⟩
-      · rename_i hchk
-        have hc : p = 0 ∨ (p ≤ nd.log.length ∧ termAt nd.log p = pt) := by
-          by_cases hp : p = 0
-          · exact Or.inl hp
-          · right
-            simp only [not_and, not_or, ne_eq] at hchk
-            have := hchk hp
-            simp only [Nat.not_lt, Decidable.not_not] at this
-            exact this
-        split
-        · exact ⟨rfl, by simp; omega, Or.inr ⟨hc, Or.inr rfl⟩⟩
-        · exact ⟨rfl, by simp; omega, Or.inr ⟨hc, Or.inl rfl⟩⟩
+      · split
+        · refine ⟨rfl, by simp; omega, Or.inl rfl⟩
+        · rename_i _ hchk
+          have hc : p = 0 ∨ (p ≤ nd.log.length ∧ termAt nd.log p = pt) := by
+            by_cases hp : p = 0
+            · exact Or.inl hp
+            · right
+              simp only [not_and, not_or, ne_eq] at hchk
+              have := hchk hp
+              simp only [Nat.not_lt, Decidable.not_not] at this
+              exact this
+          split
+          · exact ⟨rfl, by simp; omega, Or.inr ⟨hc, Or.inr rfl⟩⟩
+          · exact ⟨rfl, by simp; omega, Or.inr ⟨hc, Or.inl rfl⟩⟩
     · simp only [h2, if_false]
       have hrole : nd.role = .follower := by
         by_contra hne; exact h2 (Or.inr hne)
       split
       · exact ⟨hrole, Nat.le_refl _, Or.inl rfl⟩
-      · rename_i hchk
-        have hc : p = 0 ∨ (p ≤ nd.log.length ∧ termAt nd.log p = pt) := by
-          by_cases hp : p = 0
-          · exact Or.inl hp
-          · right
-            simp only [not_and, not_or, ne_eq] at hchk
-            have := hchk hp
-            simp only [Nat.not_lt, Decidable.not_not] at this
-            exact this
-        split
-        · exact ⟨hrole, Nat.le_refl _, Or.inr ⟨hc, Or.inr rfl⟩⟩
-        · exact ⟨hrole, Nat.le_refl _, Or.inr ⟨hc, Or.inl rfl⟩⟩
+      · split
+        · exact ⟨hrole, Nat.le_refl _, Or.inl rfl⟩
+        · rename_i _ hchk
+          have hc : p = 0 ∨ (p ≤ nd.log.length ∧ termAt nd.log p = pt) := by
+            by_cases hp : p = 0
+            · exact Or.inl hp
+            · right
+              simp only [not_and, not_or, ne_eq] at hchk
+              have := hchk hp
+              simp only [Nat.not_lt, Decidable.not_not] at this
+              exact this
+          split
+          · exact ⟨hrole, Nat.le_refl _, Or.inr ⟨hc, Or.inr rfl⟩⟩
+          · exact ⟨hrole, Nat.le_refl _, Or.inr ⟨hc, Or.inl rfl⟩⟩
+
+theorem handleIS_log (nd : Node) (T : List Entry) (t idx iterm : Nat) :
+    let r := handleIS nd T t idx iterm
+    (r.1 = nd ∧ r.2 = false) ∨
+    (r.2 = true ∧ r.1.role = .follower ∧ r.1.term = t ∧ nd.term ≤ t ∧ r.1.commit = nd.commit ∧
+      ((idx ≤ nd.log.length ∧ termAt nd.log idx = iterm ∧ r.1.log = nd.log) ∨
+       (¬ (idx ≤ nd.log.length ∧ termAt nd.log idx = iterm) ∧ r.1.log = T.take idx))) := by
+  simp only [handleIS]
+  by_cases h1 : t < nd.term
+  · simp [h1]
+  · simp only [h1, if_false]
+    right
+    by_cases h2 : nd.term < t ∨ nd.role ≠ .follower
+    · simp only [h2, if_true]
+      split
+      · rename_i hh; exact ⟨rfl, rfl, rfl, by omega, rfl, Or.inl ⟨hh.1, hh.2, rfl⟩⟩
+      · rename_i hh; exact ⟨rfl, rfl, rfl, by omega, rfl, Or.inr ⟨hh, rfl⟩⟩
+    · simp only [h2, if_false]
+      have hrole : nd.role = .follower := by
+        by_contra hne; exact h2 (Or.inr hne)
+      have hterm : nd.term = t := by
+        have : ¬ nd.term < t := fun hlt => h2 (Or.inl hlt)
+        omega
+      split
+      · rename_i hh; exact ⟨rfl, hrole, hterm, by omega, rfl, Or.inl ⟨hh.1, hh.2, rfl⟩⟩
+      · rename_i hh; exact ⟨rfl, hrole, hterm, by omega, rfl, Or.inr ⟨hh, rfl⟩⟩
 
 theorem ghost_if_tl (b : Bool) (g : Ghost) (x : Nat × Nat × Nat) (y : Nat × Nat × Nat × List Entry × Bool) :
     (if b = true then ({ g with grants := x :: g.grants, glogs := y :: g.glogs } : Ghost) else g).tl = g.tl := by
@@ -521,6 +551,113 @@ theorem inv2_step (n : Nat) (s s' : Sys) (hreach : Reachable n s) (h : Inv2 n s)
         · rename_i hkj
           simp only [hkj, if_false] at hq
           exact a7 k Q hq
+  | compact i b =>
+    apply inv2_frame n s _ h
+    · intro j; simp only [apply, setNode_nodes]; split
+      · rename_i hj; subst hj; rfl
+      · rfl
+    · rfl
+    · rfl
+    · intro ldr t p pt es lc hm; exact hm
+    · intro j; simp only [apply, setNode_nodes]; split
+      · rename_i hj; subst hj; exact Nat.le_refl _
+      · exact Nat.le_refl _
+    · intro j; simp only [apply, setNode_nodes]; split
+      · rename_i hj; subst hj; left; exact ⟨rfl, rfl⟩
+      · left; exact ⟨rfl, rfl⟩
+  | takeSnap i k =>
+    apply inv2_frame n s _ h
+    · intro j; simp only [apply, setNode_nodes]; split
+      · rename_i hj; subst hj; rfl
+      · rfl
+    · rfl
+    · rfl
+    · intro ldr t p pt es lc hm; exact hm
+    · intro j; simp only [apply, setNode_nodes]; split
+      · rename_i hj; subst hj; exact Nat.le_refl _
+      · exact Nat.le_refl _
+    · intro j; simp only [apply, setNode_nodes]; split
+      · rename_i hj; subst hj; left; exact ⟨rfl, rfl⟩
+      · left; exact ⟨rfl, rfl⟩
+  | sendIS i =>
+    apply inv2_frame n s _ h
+    · intro j; rfl
+    · rfl
+    · rfl
+    · intro ldr t p pt es lc hm
+      simp only [apply, List.mem_cons] at hm
+      rcases hm with hm | hm
+      · cases hm
+      · exact hm
+    · intro j; exact Nat.le_refl _
+    · intro j; left; exact ⟨rfl, rfl⟩
+  | recvIS j ldr t idx iterm =>
+    obtain ⟨a1, a2, a3, a4, a5, a6, a7⟩ := h
+    have hf := handleIS_log (s.nodes j) (s.ghost.tl t) t idx iterm
+    simp only at hf
+    have htl : (apply n s (Label.recvIS j ldr t idx iterm)).ghost.tl = s.ghost.tl := by
+      simp only [apply]; exact ghost_ifa_tl _ _ _
+    have hel : (apply n s (Label.recvIS j ldr t idx iterm)).ghost.elected = s.ghost.elected := by
+      simp only [apply]; exact ghost_ifa_elected _ _ _
+    have hnet : ∀ l' t' p' pt' es' lc', Msg.ae l' t' p' pt' es' lc' ∈
+        (apply n s (Label.recvIS j ldr t idx iterm)).net → Msg.ae l' t' p' pt' es' lc' ∈ s.net := by
+      intro l' t' p' pt' es' lc' hm'
+      simp only [apply] at hm'
+      split at hm'
+      · rcases List.mem_cons.mp hm' with h | h
+        · cases h
+        · exact h
+      · exact hm'
+    have hnodes : ∀ k, (apply n s (Label.recvIS j ldr t idx iterm)).nodes k
+        = if k = j then (handleIS (s.nodes j) (s.ghost.tl t) t idx iterm).1 else s.nodes k := by
+      intro k; simp only [apply, setNode_nodes]
+    have hnewlog : PrefixOK s.ghost.tl (handleIS (s.nodes j) (s.ghost.tl t) t idx iterm).1.log := by
+      rcases hf with ⟨hsame, _⟩ | ⟨_, _, _, _, _, hl⟩
+      · rw [hsame]; exact a1 j
+      · rcases hl with ⟨_, _, hl⟩ | ⟨_, hl⟩
+        · rw [hl]; exact a1 j
+        · rw [hl]; exact prefixOK_take _ _ _ (a2 t)
+    refine ⟨?_, ?_, ?_, ?_, ?_, ?_, ?_⟩
+    · intro k; rw [hnodes, htl]; split
+      · exact hnewlog
+      · exact a1 k
+    · intro u; rw [htl]; exact a2 u
+    · intro u hu; rw [htl] at hu; rw [hel]; exact a3 u hu
+    · intro k hk
+      rw [hnodes] at hk ⊢
+      rw [htl, hel]
+      split
+      · rename_i hkj
+        simp only [hkj, if_true] at hk
+        rcases hf with ⟨hsame, _⟩ | ⟨_, frole, _⟩
+        · rw [hsame] at hk ⊢; rw [hkj]; exact a4 j hk
+        · rw [frole] at hk; cases hk
+      · rename_i hkj
+        simp only [hkj, if_false] at hk
+        exact a4 k hk
+    · intro l' t' p' pt' es' lc' hm'; rw [htl]; exact a5 _ _ _ _ _ _ (hnet _ _ _ _ _ _ hm')
+    · intro t' l Q hq
+      rw [hel] at hq
+      rw [hnodes]
+      have := a6 t' l Q hq
+      split
+      · rename_i hl; subst hl
+        rcases hf with ⟨hsame, _⟩ | ⟨_, _, fterm, fle, _⟩
+        · rw [hsame]; exact this
+        · rw [fterm]; omega
+      · exact this
+    · intro k Q hq
+      rw [hel] at hq
+      rw [hnodes] at hq ⊢
+      split
+      · rename_i hkj
+        simp only [hkj, if_true] at hq
+        rcases hf with ⟨hsame, _⟩ | ⟨_, frole, _⟩
+        · rw [hsame] at hq ⊢; exact a7 j Q hq
+        · rw [frole]; intro hc; cases hc
+      · rename_i hkj
+        simp only [hkj, if_false] at hq
+        exact a7 k Q hq
   | advanceCommit i k Q =>
     apply inv2_frame n s _ h
     · intro j; simp only [apply, setNode_nodes]; split
